@@ -7,23 +7,56 @@ import IcingaProofs.C17.ObjLemmas
 
 namespace Icinga.C17
 
-/-- `r` arose from `s` by removals only. -/
+/-- `x` is `y`, or `y` merely deactivated. -/
+def SameOrDeactivated (x y : Obj) : Prop := x = y ∨ x = { y with active := false }
+
+/-- `r` arose from `s` by removals only (and, when a deletion was aborted, by deactivating objects). -/
 structure Shrunk (r s : St) : Prop where
-  objs : r.objs.Sublist s.objs
+  keys : r.keys.Sublist s.keys
+  objs : ∀ x ∈ r.objs, ∃ y ∈ s.objs, SameOrDeactivated x y
   items : r.items.Sublist s.items
   files : r.files.Sublist s.files
 
-theorem Shrunk.refl (s : St) : Shrunk s s := ⟨List.Sublist.refl _, List.Sublist.refl _, List.Sublist.refl _⟩
+theorem Shrunk.refl (s : St) : Shrunk s s :=
+  ⟨List.Sublist.refl _, fun x hx => ⟨x, hx, Or.inl rfl⟩, List.Sublist.refl _, List.Sublist.refl _⟩
 
-theorem Shrunk.trans {a b c : St} (h1 : Shrunk a b) (h2 : Shrunk b c) : Shrunk a c :=
-  ⟨h1.objs.trans h2.objs, h1.items.trans h2.items, h1.files.trans h2.files⟩
+theorem Shrunk.trans {a b c : St} (h1 : Shrunk a b) (h2 : Shrunk b c) : Shrunk a c := by
+  refine ⟨h1.keys.trans h2.keys, ?_, h1.items.trans h2.items, h1.files.trans h2.files⟩
+  intro x hx
+  obtain ⟨y, hy, hxy⟩ := h1.objs x hx
+  obtain ⟨z, hz, hyz⟩ := h2.objs y hy
+  refine ⟨z, hz, ?_⟩
+  rcases hxy with e | e <;> rcases hyz with e' | e' <;> subst e <;> subst e'
+  · exact Or.inl rfl
+  · exact Or.inr rfl
+  · exact Or.inr rfl
+  · exact Or.inr rfl
 
 theorem removeObj_shrunk (st : St) (o : Obj) : Shrunk (removeObj st o) st := by
-  refine ⟨by simp [removeObj], by simp [removeObj], ?_⟩
-  simp only [removeObj]
+  refine ⟨removeObj_keys_sublist st o, ?_, by simp [removeObj], ?_⟩
+  · intro x hx
+    simp only [removeObj, List.mem_filter] at hx
+    exact ⟨x, hx.1, Or.inl rfl⟩
+  · simp only [removeObj]
+    split
+    · simp [rmFile]
+    · exact List.Sublist.refl _
+
+theorem deactivateObj_shrunk (st : St) (o : Obj) : Shrunk (deactivateObj st o) st := by
+  refine ⟨by rw [deactivateObj_keys]; exact List.Sublist.refl _, ?_, List.Sublist.refl _, List.Sublist.refl _⟩
+  intro x hx
+  simp only [deactivateObj, List.mem_map] at hx
+  obtain ⟨y, hy, e⟩ := hx
+  refine ⟨y, hy, ?_⟩
+  split at e
+  · exact Or.inr e.symm
+  · exact Or.inl e.symm
+
+theorem finishDelete_shrunk (st : St) (o : Obj) (thr : Option Key) : Shrunk (finishDelete st o thr).1 st := by
+  unfold finishDelete
   split
-  · simp [rmFile]
-  · exact List.Sublist.refl _
+  · exact deactivateObj_shrunk st o
+  · exact removeObj_shrunk st o
 
 theorem deleteChild_shrunk (rec : St → Obj → St) (hrec : ∀ s co, Shrunk (rec s co) s) (s : St) (c : Key) :
     Shrunk (deleteChild rec s c) s := by
@@ -38,50 +71,56 @@ theorem foldl_shrunk (g : St → Key → St) (hg : ∀ s c, Shrunk (g s c) s) (c
   | nil => intro st; exact Shrunk.refl _
   | cons c cs ih => intro st; exact (ih (g st c)).trans (hg st c)
 
-theorem deleteHelper_shrunk : ∀ (f : Nat) (st : St) (o : Obj) (c : Bool) (busy : List Key),
-    Shrunk (deleteHelper f st o c busy).1 st := by
+theorem deleteHelper_shrunk : ∀ (f : Nat) (st : St) (o : Obj) (c : Bool) (busy : List Key) (thr : Option Key),
+    Shrunk (deleteHelper f st o c busy thr).1 st := by
   intro f
   induction f with
-  | zero => intro st o c busy; exact removeObj_shrunk st o
+  | zero => intro st o c busy thr; exact finishDelete_shrunk st o thr
   | succ f ih =>
-    intro st o c busy
+    intro st o c busy thr
     simp only [deleteHelper]
     split
     · exact Shrunk.refl _
     · split
       · exact Shrunk.refl _
-      · refine (removeObj_shrunk _ o).trans ?_
-        exact foldl_shrunk _ (fun s k => deleteChild_shrunk _ (fun s co => ih s co c _) s k) _ st
+      · refine (finishDelete_shrunk _ o thr).trans ?_
+        exact foldl_shrunk _ (fun s k => deleteChild_shrunk _ (fun s co => ih s co c _ thr) s k) _ st
 
-theorem deleteObject_shrunk (st : St) (k : Key) (c : Bool) : Shrunk (deleteObject st k c).1 st := by
+theorem deleteObject_shrunk (st : St) (k : Key) (c : Bool) (thr : Option Key := none) :
+    Shrunk (deleteObject st k c thr).1 st := by
   unfold deleteObject
   split
   · exact Shrunk.refl _
   · split
     · exact Shrunk.refl _
-    · exact deleteHelper_shrunk _ _ _ _ _
+    · exact deleteHelper_shrunk _ _ _ _ _ _
 
 /-- what is absent stays absent -/
 theorem Shrunk.has_false {r s : St} (h : Shrunk r s) (k : Key) (hk : s.has k = false) : r.has k = false := by
   rw [has_false_iff] at hk ⊢
-  intro hm
-  apply hk
-  simp only [St.keys, List.mem_map] at hm ⊢
-  obtain ⟨x, hx, e⟩ := hm
-  exact ⟨x, h.objs.subset hx, e⟩
+  exact fun hm => hk (h.keys.subset hm)
 
 theorem removeObj_has_false (st : St) (o : Obj) : (removeObj st o).has o.key = false := by
   simp [removeObj, St.has]
 
-/-- a cascading helper call for an object whose deletion is not already under way removes that object -/
-theorem deleteHelper_removes (f : Nat) (st : St) (o : Obj) (busy : List Key) (hb : o.key ∉ busy) :
-    (deleteHelper f st o true busy).1.has o.key = false := by
+/-- the fault does not concern this object: the tail of the helper removes it -/
+theorem finishDelete_removes (st : St) (o : Obj) (thr : Option Key) (ht : thr ≠ some o.key) :
+    (finishDelete st o thr).1.has o.key = false ∧ (finishDelete st o thr).2 = true := by
+  have : (thr = some o.key) = False := by simpa using ht
+  simp only [finishDelete, this, decide_false, Bool.false_and, Bool.false_eq_true, if_false]
+  exact ⟨removeObj_has_false st o, trivial⟩
+
+/-- a cascading helper call for an object whose deletion is not already under way, and whose deactivation is not
+    the one that fails, removes that object — whatever happens to its dependents -/
+theorem deleteHelper_removes (f : Nat) (st : St) (o : Obj) (busy : List Key) (thr : Option Key)
+    (hb : o.key ∉ busy) (ht : thr ≠ some o.key) :
+    (deleteHelper f st o true busy thr).1.has o.key = false := by
   cases f with
-  | zero => exact removeObj_has_false st o
+  | zero => exact (finishDelete_removes st o thr ht).1
   | succ f =>
     have hb' : busy.contains o.key = false := by simpa using hb
     simp only [deleteHelper, Bool.not_true, Bool.and_false, Bool.false_eq_true, if_false, hb']
-    exact removeObj_has_false _ o
+    exact (finishDelete_removes _ o thr ht).1
 
 theorem find_key (st : St) (k : Key) (o : Obj) (h : st.find k = some o) : o.key = k := by
   have := List.find?_some h
@@ -94,34 +133,71 @@ theorem find_none_has (st : St) (k : Key) (h : st.find k = none) : st.has k = fa
   simpa using h x hx
 
 /-- the loop over the dependents (cascading): every one of them other than the objects whose deletion is
-    under way is gone after the loop -/
-theorem foldl_children_removed (f : Nat) (busy : List Key) (cs : List Key) :
-    ∀ (st : St) (c : Key), c ∈ cs → c ∉ busy →
-      (cs.foldl (deleteChild (fun s co => (deleteHelper f s co true busy).1)) st).has c = false := by
+    under way, and other than the one whose deactivation fails, is gone after the loop -/
+theorem foldl_children_removed (f : Nat) (busy : List Key) (thr : Option Key) (cs : List Key) :
+    ∀ (st : St) (c : Key), c ∈ cs → c ∉ busy → thr ≠ some c →
+      (cs.foldl (deleteChild (fun s co => (deleteHelper f s co true busy thr).1)) st).has c = false := by
   induction cs with
   | nil => intro st c hc; cases hc
   | cons a cs ih =>
-    intro st c hc hb
+    intro st c hc hb ht
     simp only [List.foldl_cons]
     by_cases hin : c ∈ cs
-    · exact ih _ c hin hb
+    · exact ih _ c hin hb ht
     · have hca : c = a := by
         rcases List.mem_cons.mp hc with h | h
         · exact h
         · exact absurd h hin
       subst hca
-      have hrest := foldl_shrunk (deleteChild (fun s co => (deleteHelper f s co true busy).1))
-        (fun s k => deleteChild_shrunk _ (fun s co => deleteHelper_shrunk f s co true busy) s k) cs
-        (deleteChild (fun s co => (deleteHelper f s co true busy).1) st c)
+      have hrest := foldl_shrunk (deleteChild (fun s co => (deleteHelper f s co true busy thr).1))
+        (fun s k => deleteChild_shrunk _ (fun s co => deleteHelper_shrunk f s co true busy thr) s k) cs
+        (deleteChild (fun s co => (deleteHelper f s co true busy thr).1) st c)
       apply hrest.has_false
       unfold deleteChild
       split
       · rename_i co hfind
         have hk := find_key st c co hfind
-        have := deleteHelper_removes f st co busy (by rw [hk]; exact hb)
+        have := deleteHelper_removes f st co busy thr (by rw [hk]; exact hb) (by rw [hk]; exact ht)
         rw [hk] at this
         exact this
       · rename_i hfind
         exact find_none_has st c hfind
+
+theorem deactivateObj_find (st : St) (k : Key) (o : Obj) (ho : st.find k = some o) :
+    (deactivateObj st o).find k = some { o with active := false } := by
+  have hkey : o.key = k := find_key st k o ho
+  unfold St.find at ho ⊢
+  simp only [deactivateObj]
+  generalize st.objs = l at ho
+  induction l with
+  | nil => cases ho
+  | cons x r ih =>
+    simp only [List.map_cons, List.find?_cons] at ho ⊢
+    by_cases hx : x.key = k
+    · simp only [hx, decide_true] at ho
+      cases ho
+      simp [hkey]
+    · have hxo : ¬ x.key = o.key := by rw [hkey]; exact hx
+      simp only [hx, decide_false] at ho
+      simp only [hxo, if_false, hx, decide_false]
+      exact ih ho
+
+theorem deactivateObj_children (st : St) (o : Obj) (k : Key) (h : children st k = []) :
+    children (deactivateObj st o) k = [] := by
+  unfold children at h ⊢
+  rw [List.filter_eq_nil_iff] at h ⊢
+  intro c hc
+  simp only [List.mem_map, List.mem_filter] at hc
+  obtain ⟨e, ⟨he, hek⟩, rfl⟩ := hc
+  have hmem : e ∈ st.deps := by
+    simp only [deactivateObj, List.mem_filter] at he
+    exact he.1
+  have := h e.1 (by
+    simp only [List.mem_map, List.mem_filter]
+    exact ⟨e, ⟨hmem, hek⟩, rfl⟩)
+  have hf : st.has e.1 = false := by simpa using this
+  have : (deactivateObj st o).has e.1 = false := by
+    rw [has_false_iff, deactivateObj_keys, ← has_false_iff]; exact hf
+  simp [this]
 
 end Icinga.C17
